@@ -26,8 +26,10 @@ def stamp(epoch_utc, utc_offset_s=0):
 
 
 def csv_text(header, rows):
-    return header + '\n' + ''.join('%s,%s\n' % (t, repr(float(v)))
-                                   for t, v in rows)
+    # (a value given as text is written as it stands)
+    return header + '\n' + ''.join(
+        '%s,%s\n' % (t, v if isinstance(v, str) else repr(float(v)))
+        for t, v in rows)
 
 
 def make_texts(rain, level, dt, t0=T0_DEFAULT, et=None, utc_offset_s=0):
